@@ -201,6 +201,37 @@ def violatesGuard (H : Bytes → Bytes) (s : St) : List Op → Bool
       let x := stepOp H false s op
       if x.2.2 then false else violatesGuard H x.1 r
 
+/-! ### the side condition of the hash clause of `C03_isolated`, checked on every guarded run -/
+
+/-- `target` is reachable from `a` (fuel-bounded search) -/
+def reachF (hp : Heap) (target : Nat) : Nat → Nat → Bool
+  | 0, _ => false
+  | f + 1, a =>
+    a == target || (List.finRange 16).any (fun i =>
+      match (hp.get a).kids i with
+      | some c => reachF hp target f c
+      | none => false)
+
+/-- the root node of some live trie lies strictly below the root node of another live trie -/
+def rootBelowRoot (s : St) : Bool :=
+  s.hs.any (fun x => s.hs.any (fun y =>
+    x.live && y.live &&
+      match x.t.root, y.t.root with
+      | some rx, some ry =>
+        (List.finRange 16).any (fun i =>
+          match (s.hp.get ry).kids i with
+          | some c => reachF s.hp rx 64 c
+          | none => false)
+      | _, _ => false))
+
+/-- some state of the run (on the model) has a live root strictly below another live root -/
+def rootsNested (H : Bytes → Bytes) (s : St) : List Op → Bool
+  | [] => rootBelowRoot s
+  | op :: r =>
+    rootBelowRoot s ||
+      (let x := stepOp H false s op
+       if x.2.2 then false else rootsNested H x.1 r)
+
 /-! ### parsing: `op;op;…` -/
 
 def parseHandle (s : String) : Option Nat :=
